@@ -1,5 +1,153 @@
-//! S6 — call histories on one generator (filled in below).
-pub fn cmd_hist(_args: &[String]) {
-    eprintln!("hist: not built yet");
-    std::process::exit(2);
+//! S6 — call histories on one generator object: the result of the last call of a history is
+//! compared with a fresh generator that receives only that call (C08), and two fresh
+//! generators are compared with each other (C07, in-process part).
+
+use crate::{hex, sample_case, Case, Mode, Rng};
+
+#[derive(Clone, Debug)]
+pub enum Call {
+    Gen,
+    Arb(Vec<u8>),
+    Reset,
+}
+
+impl Call {
+    fn tag(&self) -> String {
+        match self {
+            Call::Gen => "g".to_string(),
+            Call::Arb(b) => format!("a{}", if b.is_empty() { "-".to_string() } else { hex(b) }),
+            Call::Reset => "r".to_string(),
+        }
+    }
+}
+
+pub fn parse_calls(s: &str) -> Vec<Call> {
+    s.split(',')
+        .filter(|t| !t.is_empty())
+        .map(|t| match t.as_bytes()[0] {
+            b'g' => Call::Gen,
+            b'r' => Call::Reset,
+            _ => Call::Arb(if &t[1..] == "-" { vec![] } else { crate::unhex(&t[1..]) }),
+        })
+        .collect()
+}
+
+fn do_call(c: &Case, g: &mut pickle_fuzzer::Generator, call: &Call) -> Option<Result<Vec<u8>, String>> {
+    match call {
+        Call::Reset => {
+            g.reset();
+            None
+        }
+        Call::Gen => {
+            let cc = Case { mode: Mode::Rand(0), ..c.clone() };
+            Some(cc.run_on(g))
+        }
+        Call::Arb(b) => {
+            let cc = Case { mode: Mode::Arb(b.clone()), ..c.clone() };
+            Some(cc.run_on(g))
+        }
+    }
+}
+
+/// run a history; returns the result of the last generating call
+pub fn run_history(c: &Case, calls: &[Call]) -> Option<Result<Vec<u8>, String>> {
+    let mut g = c.generator();
+    let mut last = None;
+    for call in calls {
+        if let Some(r) = do_call(c, &mut g, call) {
+            last = Some(r);
+        }
+    }
+    last
+}
+
+fn res_str(r: &Option<Result<Vec<u8>, String>>) -> String {
+    match r {
+        None => "none".to_string(),
+        Some(Ok(b)) => format!("ok:{}", hex(b)),
+        Some(Err(e)) => e.clone(),
+    }
+}
+
+pub fn hist_line(c: &Case, calls: &[Call]) -> String {
+    let got = run_history(c, calls);
+    let last_gen = calls.iter().rev().find(|x| !matches!(x, Call::Reset)).cloned();
+    let fresh = match &last_gen {
+        Some(call) => run_history(c, std::slice::from_ref(call)),
+        None => None,
+    };
+    let same = res_str(&got) == res_str(&fresh);
+    let tags: Vec<String> = calls.iter().map(|x| x.tag()).collect();
+    let detail = if same {
+        String::new()
+    } else {
+        let (a, b) = (res_str(&got), res_str(&fresh));
+        format!(
+            " got_len={} fresh_len={} got_prefix={} fresh_prefix={}",
+            a.len() / 2,
+            b.len() / 2,
+            &a[..a.len().min(40)],
+            &b[..b.len().min(40)]
+        )
+    };
+    format!(
+        "hist {} calls={} verdict={}{}",
+        c.line(),
+        tags.join(","),
+        if same { "ok" } else { "FAIL" },
+        detail
+    )
+}
+
+pub fn cmd_hist(args: &[String]) {
+    if let Some(i) = args.iter().position(|a| a == "--case") {
+        // replay: --case <kv tokens...> calls=<...>
+        let line = args[i + 1..].join(" ");
+        let c = Case::parse(&line).expect("case");
+        let calls = args[i + 1..]
+            .iter()
+            .find_map(|t| t.strip_prefix("calls="))
+            .map(parse_calls)
+            .unwrap_or_default();
+        println!("{}", hist_line(&c, &calls));
+        return;
+    }
+    let n: u64 = crate::arg_val(args, "--cases", "200").parse().unwrap();
+    let seed: u64 = crate::arg_val(args, "--seed", "1").parse().unwrap();
+    let maxlen: u64 = crate::arg_val(args, "--maxlen", "4").parse().unwrap();
+    let mut rng = Rng(seed ^ 0x68697374);
+    for id in 0..n {
+        let mut c = sample_case(&mut rng, id, if id % 3 == 0 { "small" } else { "default" }, "mix");
+        if c.max > 400 {
+            c.max = 400;
+            c.min = c.min.min(300);
+        }
+        // a seed is always set so that `generate` is deterministic
+        c.mode = Mode::Rand(rng.next() % 100000);
+        let k = 1 + rng.below(maxlen);
+        let mut calls = Vec::new();
+        for _ in 0..k {
+            calls.push(match rng.below(5) {
+                0 => Call::Gen,
+                1 => Call::Reset,
+                _ => {
+                    let len = match rng.below(4) {
+                        0 => 0,
+                        1 => rng.below(8) as usize,
+                        _ => rng.below(300) as usize,
+                    };
+                    Call::Arb(rng.bytes(len))
+                }
+            });
+        }
+        // the exact pattern of PickleMutator.mutate: the same input twice
+        if id % 7 == 0 {
+            let b = rng.bytes(8);
+            calls = vec![Call::Arb(b.clone()), Call::Arb(b)];
+        }
+        if !calls.iter().any(|x| !matches!(x, Call::Reset)) {
+            calls.push(Call::Gen);
+        }
+        println!("{}", hist_line(&c, &calls));
+    }
 }
